@@ -184,7 +184,7 @@ func histFlags(seed uint64) []Flags {
 			out = append(out, fl)
 		}
 	}
-	extra := allFlags()[int(seed%4)]
+	extra := allFlags()[:8][int(seed%4)]
 	extra.Feat = false
 	extra.Hook = seed&4 != 0
 	extra.Cost = seed&8 != 0
